@@ -647,6 +647,117 @@ def run_world(items):
     return out, None
 
 
+def run_fault_world(sc):
+    """Writes to the blobs table of shared.db fail (a second connection holds BEGIN
+    IMMEDIATE past raven's 5 s busy timeout: driver ops db_lock / db_unlock) while the
+    per-user stores stay writable; messages with blob-sized parts are stored by LMTP
+    and by APPEND meanwhile. They must be accepted AND come back as submitted."""
+    L, Ap = sc["L"], sc["Ap"]       # lists of (msg, locked?)
+    ops = ops_login("a", A) + [{"op": "lmtp_open", "conn": "l1"}, {"op": "send", "conn": "l1", "data": "LHLO x\r\n", "until": "lmtp:1"}]
+    marks = []
+    locked = False
+
+    def lock(want):
+        nonlocal locked
+        if want != locked:
+            ops.append({"op": "db_lock" if want else "db_unlock"})
+            locked = want
+    n = max(len(L), len(Ap))
+    for i in range(n):
+        if i < len(L):
+            m, lk = L[i]
+            lock(lk)
+            sub, wire = lmtp_wire(m["_raw"])
+            marks.append((len(ops) + 3, "lmtp", sub, ("L", i)))
+            ops.extend(ops_lmtp("l1", B, wire))
+        if i < len(Ap):
+            m, lk = Ap[i]
+            lock(lk)
+            marks.append((len(ops) + 1, "append", m["_raw"], ("A", i)))
+            ops.extend(ops_append("a", "ap%d" % i, m["_raw"]))
+    lock(False)
+    ops.extend(ops_fetch_all("fa1", A, len(Ap), "fa") + ops_fetch_all("fb1", B, len(L), "fb"))
+    ops.extend(ops_fetch_all("fa2", A, len(Ap), "ga") + ops_fetch_all("fb2", B, len(L), "gb"))
+    res = C.run_ops(ops, timeout=900)
+    if res.get("crashed"):
+        return None, res.get("stderr", "")[:800]
+    obs = res["obs"]
+    fetched = {}
+    for op, o in zip(ops, obs):
+        if op.get("kind") == "fetch":
+            fetched[(op["data"][:2], op["seq"])] = literal_of(C.unlatin(o.get("recv", "")))
+    out = {}
+    for (pos, via, sub, key) in marks:
+        o = obs[pos]
+        recv = C.unlatin(o.get("recv", "")) if "recv" in o else b""
+        ok = (recv.startswith(b"250") if via == "lmtp" else ((not o.get("skipped")) and re.search(rb"^ap\d+ OK", recv, re.M) is not None))
+        p1, p2 = ("fb", "gb") if via == "lmtp" else ("fa", "ga")
+        out[key] = {"stored": ok, "submitted": sub, "via": via + "/blob-table-write-fails", "reply": recv[:200],
+                    "f1": fetched.get((p1, key[1])), "f2": fetched.get((p2, key[1]))}
+    return out, None
+
+
+def observe_fault(chk, sc, res):
+    out, err = res
+    if out is None:
+        chk.broken_obligation("driver crashed in scenario %s: %s" % (sc["tag"], err), {"suite": "world"})
+        return False
+    if not all(d["stored"] for d in out.values()):
+        # a refused message is outside C02 (C01 / C15 judge refusals); sequence numbers would shift
+        chk.notes.append("blob-fault scenario skipped: a submission was refused (%r)" % [d["reply"][:80] for d in out.values() if not d["stored"]][:1])
+        return False
+    worlds = []
+    base = 0
+    for (tagk, lst) in (("L", sc["L"]), ("A", sc["Ap"])):
+        items = []
+        for i, (m, lk) in enumerate(lst):
+            d = out[(tagk, i)]
+            sub = d["submitted"]
+            mm = m
+            if sub != m["_raw"]:
+                try:
+                    mm = parse_message(sub)
+                except ParseError:
+                    mm = m
+            items.append({"msg": mm, "obs": try_parse(d.get("f1")), "idx": base + i, "d": d, "faulty": True,
+                          "raw": sub if sub == m["_raw"] else None, "bds": m["_bds"], "eah": None})
+            chk.cov["stores_with_failing_blob_table"] = chk.cov.get("stores_with_failing_blob_table", 0) + (1 if lk else 0)
+        base += len(lst)
+        worlds.append(items)
+    sc["worlds"] = worlds
+    sc["refused"] = []
+    return True
+
+
+def prepare_fault(chk, rng, tag):
+    """LMTP: warm-up (creates the recipient's store), an attachment message under the lock,
+    a large text part under the lock, the same attachment again without lock.
+    APPEND: a single-part body over 1024 octets under the lock, a small one without."""
+    H = lambda i: [(b"From", b" f%d@x.org" % i), (b"To", b" b@y.org"), (b"Subject", b" blob table fault %d" % i)]
+    payload = bytes(rng.randrange(256) for _ in range(rng.randint(300, 700)))
+    att = {"k": "leaf", "type": b"application/octet-stream", "charset": b"", "ctname": b"", "cte": b"base64",
+           "disp": b'attachment; filename="report.bin"', "filename": b"report.bin", "cid": b"",
+           "body": CRLF.join([base64.b64encode(payload)[i:i + 76] for i in range(0, len(base64.b64encode(payload)), 76)])}
+    txt = {"k": "leaf", "type": b"text/plain", "charset": b"utf-8", "ctname": b"", "cte": b"", "disp": b"", "filename": b"", "cid": b"",
+           "body": b"see the attachment"}
+    big = {"k": "leaf", "type": b"text/plain", "charset": b"utf-8", "ctname": b"", "cte": b"8bit", "disp": b"", "filename": b"", "cid": b"",
+           "body": gen_text(rng, rng.randint(1100, 1600), final_nl=False)}
+    warm = {"hdrs": H(0), "body": ("single", b"warm-up\r\n")}
+    m1 = {"hdrs": H(1) + [(b"MIME-Version", b" 1.0")], "body": ("multi", b"mixed", [dict(txt), dict(att)])}
+    m2 = {"hdrs": H(2), "body": ("multi", b"alternative", [dict(big)])}
+    m3 = {"hdrs": H(3), "body": ("multi", b"mixed", [dict(att), dict(txt)])}
+    a1 = {"hdrs": H(4) + [(b"Content-Type", b" text/plain; charset=utf-8")], "body": ("single", gen_text(rng, rng.randint(1100, 1800)))}
+    a2 = {"hdrs": H(5), "body": ("single", b"small body\r\n")}
+    msgs = [warm, m1, m2, m3, a1, a2]
+    sc = prepare(chk, msgs, ["lmtp"] * 4 + ["append"] * 2, tag)
+    if sc is None:
+        return None
+    sc["fault"] = True
+    sc["L"] = [(warm, False), (m1, True), (m2, True), (m3, False)]
+    sc["Ap"] = [(a1, True), (a2, False)]
+    return sc
+
+
 ROLE = "sales@example.com"
 ROLE_BOX = "Roles/%s/INBOX" % ROLE
 
@@ -760,9 +871,10 @@ def coq_eval(worlds):
     for w, items in enumerate(worlds):
         body += "Definition ms%d : list msg := [\n%s].\n" % (w, ";\n".join(cmsg(it["msg"]) for it in items))
         body += "Definition os%d : list (option msg) := [\n%s].\n" % (w, ";\n".join(comsg(it["obs"]) for it in items))
-        body += "Definition pred%d := Eval vm_compute in false_positions 0 (zip_with omsg_eqb (results ms%d) os%d).\nPrint pred%d.\n" % (w, w, w, w)
+        rf = "results_faulty" if (items and items[0].get("faulty")) else "results"
+        body += "Definition pred%d := Eval vm_compute in false_positions 0 (zip_with omsg_eqb (%s ms%d) os%d).\nPrint pred%d.\n" % (w, rf, w, w, w)
         body += "Definition spec%d := Eval vm_compute in false_positions 0 (zip_with spec_ok ms%d os%d).\nPrint spec%d.\n" % (w, w, w, w)
-        body += "Definition mspec%d := Eval vm_compute in false_positions 0 (zip_with spec_ok ms%d (results ms%d)).\nPrint mspec%d.\n" % (w, w, w, w)
+        body += "Definition mspec%d := Eval vm_compute in false_positions 0 (zip_with spec_ok ms%d (%s ms%d)).\nPrint mspec%d.\n" % (w, w, rf, w, w)
         body += "Definition wf%d := Eval vm_compute in false_positions 0 (map wf_msg ms%d).\nPrint wf%d.\n" % (w, w, w)
         # cross-checks: serialisation twin, decoders, extractAllHeaders (string level)
         rawpos = [k for k, it in enumerate(items) if it.get("raw") is not None]
@@ -1028,17 +1140,24 @@ def evaluate_all(chk, scenarios):
     if not scenarios:
         return
     role_scs = [sc for sc in scenarios if sc.get("role")]
-    scenarios = [sc for sc in scenarios if not sc.get("role")]
+    fault_scs = [sc for sc in scenarios if sc.get("fault")]
+    scenarios = [sc for sc in scenarios if not sc.get("role") and not sc.get("fault")]
     flat = [w for sc in scenarios for w in sc["scen"]]
     from concurrent.futures import ThreadPoolExecutor
     C.build_driver()
     with ThreadPoolExecutor(max_workers=8) as ex:
+        ffut = [ex.submit(run_fault_world, sc) for sc in fault_scs]     # first: each waits for SQLite's busy timeout
+        rfut = [ex.submit(run_role_world, sc) for sc in role_scs]
         rs = list(ex.map(run_world, flat))
         eahs = list(ex.map(lambda sc: eah_calls([m["_raw"] for m in sc["msgs"]]), scenarios))
-        rrs = list(ex.map(run_role_world, role_scs))
+        frs = [f.result() for f in ffut]
+        rrs = [f.result() for f in rfut]
     ok = []
     for k, sc in enumerate(scenarios):
         if observe(chk, sc, rs[2 * k:2 * k + 2], eahs[k]):
+            ok.append(sc)
+    for sc, res in zip(fault_scs, frs):
+        if observe_fault(chk, sc, res):
             ok.append(sc)
     for sc, res in zip(role_scs, rrs):
         if observe_role(chk, sc, res):
@@ -1130,6 +1249,9 @@ def run(chk):
     # different messages under the same message ids (a message is a message OF A STORE)
     for w in range(1 if chk.tier == "quick" else 6):
         scenarios.append(prepare_role(chk, rng, "role%d" % w, 4 if chk.tier == "quick" else 6))
+    # writes to the blobs table fail while messages with blob-sized parts are stored
+    for w in range(1 if chk.tier == "quick" else 2):
+        scenarios.append(prepare_fault(chk, rng, "blobfault%d" % w))
     evaluate_all(chk, scenarios)
     cov["distinct_nontrivial"] = len(nontrivial)
     cov["worlds"] = nworlds * 2
@@ -1140,8 +1262,22 @@ def replay(path):
     d = json.load(open(path))
     print(json.dumps({k: (v if not isinstance(v, str) or len(v) < 400 else v[:400] + "...") for k, v in d.items() if k != "history"}, indent=1))
     sub = d.get("submitted")
-    if sub:
-        r, err = run_world([(C.unlatin(sub), d.get("via", "append"))])
-        if r:
-            print("re-run on the implementation: stored=%s fetched=%r" % (r[0]["stored"], r[0].get("f1")))
+    if not sub:
+        return 0
+    raw = C.unlatin(sub)
+    via = d.get("via", "append")
+    if "blob-table-write-fails" in via:
+        # same fault as in the run: the blobs table of shared.db is locked while the message is stored
+        m = {"_raw": raw}
+        warm = {"_raw": b"From: w@x.org\r\nTo: b@y.org\r\n\r\nwarm-up\r\n"}
+        sc = {"L": [(warm, False)] + ([(m, True)] if via.startswith("lmtp") else []),
+              "Ap": [(m, True)] if via.startswith("append") else []}
+        out, err = run_fault_world(sc)
+        if out:
+            r = out[("L", 1)] if via.startswith("lmtp") else out[("A", 0)]
+            print("re-run with the blobs table locked: stored=%s fetched=%r" % (r["stored"], r.get("f1")))
+        return 0
+    r, err = run_world([(raw, "lmtp" if via.startswith("lmtp") else "append")])
+    if r:
+        print("re-run on the implementation: stored=%s fetched=%r" % (r[0]["stored"], r[0].get("f1")))
     return 0
